@@ -201,6 +201,7 @@ class SpecGen:
         self.pinned = []
         self.cur_sheet = None
         self.ranges_used = []   # plain rectangles written literally in the current formula
+        self.declared_extra = []   # cells named (not read) by the current formula
 
     # -- layout -------------------------------------------------------------
     def grid_addr(self, sheet, i):
@@ -320,6 +321,9 @@ class SpecGen:
                     break
             if all(a in self.by_addr for a in self.rect_addrs(ra)):
                 txt = self.range_text(*ra) + ' ' + self.range_text(*rb)
+                # both operands are declared precedents, only the intersection is read
+                self.declared_extra += [a for a in self.rect_addrs(ra) + self.rect_addrs(rb)
+                                        if a not in self.rect_addrs(rect)]
                 return txt, self.rect_addrs(rect)
         if k['multicolon'] and roll > 0.78 and r2 > r1 and c2 > c1:
             col1, col2 = rc_coord(1, c1)[:-1], rc_coord(1, c2)[:-1]
@@ -420,10 +424,11 @@ class SpecGen:
     def formula(self):
         for _ in range(8):
             self.ranges_used = []
+            self.declared_extra = []
             t, p, d = self.expr()
             if p or d:
                 break
-        return '=' + t, uniq(p), uniq(d)
+        return '=' + t, uniq(p), uniq(d + self.declared_extra)
 
     # -- whole workbook ---------------------------------------------------------
     def generate(self):
